@@ -347,7 +347,7 @@ int64_t gen_day(vh::Rng &r) {
 Loop *g_loop = nullptr;
 void drain_loop() { g_loop->runNext([] {}); g_loop->runLoop(Loop::Mode::kOnce); }
 
-struct NextStats { bool boundary = false, rollover = false; };
+struct NextStats { bool boundary = false, rollover = false; std::string summary; };
 
 //! symptom class of a wrong instant. 32-bit answers at or before `now` near the end of the range are taken as wrapped
 std::string cmp_class(int64_t got, int64_t ref, int64_t now) {
@@ -395,6 +395,8 @@ void eval_next(const Cfg &cfg, const c20::Calendar *mcal, ta::WorkdayCalendar *r
     bool probe_bad = false;
     bool ok = u.calc((uint32_t)now_local, got);
     vh::counter("via_probe");
+    stats.summary = what + (rs == kRefNone ? std::string(" -> reference: no instant") : vh::fmt(" -> reference: local %lld (%+lld s)%s", (long long)ref, (long long)(ref - now_local), rs == kRefBeyond ? " [beyond scan horizon]" : "")) +
+                    vh::fmt("; computation: %s%u", ok ? "" : "false/", got);
     if (rs == kRefNone) {
         vh::counter("expect_no_instant");
         VH_CHECK(!ok, "next/" + kn + "/probe/instant-for-unsatisfiable-configuration", "%s -> got %u", what.c_str(), got);
@@ -432,6 +434,7 @@ void eval_next(const Cfg &cfg, const c20::Calendar *mcal, ta::WorkdayCalendar *r
     else u.base->setTimezone(off_min);
     bool en = u.base->enable();
     vh::counter("via_enable");
+    stats.summary += vh::fmt("; enable()=%d remainSeconds()=%u at wall utc %lld.%06u%s", (int)en, en ? u.base->remainSeconds() : 0u, (long long)now_utc, usec, sys_tz ? " (system zone)" : "");
     if (off_min < 0) vh::counter("zone_west"); else if (off_min > 0) vh::counter("zone_east");
     if (rs == kRefNone) {
         VH_CHECK(!en && !u.base->isEnabled(), "next/" + kn + "/enable/armed-for-unsatisfiable-configuration", "%s", what.c_str());
@@ -500,12 +503,16 @@ void next_case(uint64_t, vh::Rng &r) {
         static const uint32_t usecs[] = {0, 1, 999, 1000, 500000, 999000, 999999};
         uint32_t usec = r.chance(1, 2) ? usecs[r.below(7)] : (uint32_t)r.below(1000000);
         eval_next(cfg, &mcal, &rcal, now_local - (int64_t)off_min * 60, usec, off_min, sys_tz, sig, stats);
-        if (i == 0) sample = vh::st().case_desc;
+        if (i == 0) sample = stats.summary;
     }
     drain_loop();
     vh::note_case(sig.h, stats.boundary || stats.rollover);
-    if (vh::want_sample() && (stats.boundary || stats.rollover))
-        vh::sample("{\"mode\":\"next\",\"first_evaluation\":" + vh::jstr(sample) + "}");
+    // a few readable samples, from the first shard only, one per kind (cron and workday first)
+    static unsigned sampled_kinds = 0;
+    if (vh::st().args.first == 0 && !(sampled_kinds & (1u << cfg.kind)) && (cfg.kind == kCron || cfg.kind == kWorkday) && !sample.empty()) {
+        sampled_kinds |= 1u << cfg.kind;
+        vh::sample("{\"mode\":\"next\",\"first_evaluation\":" + vh::jstr(sample) + "}", 2);
+    }
 }
 
 // ---- mode "weekly-exhaustive" -----------------------------------------------------------------------------------------
@@ -1044,8 +1051,8 @@ void history_case(uint64_t, vh::Rng &r) {
     bool nontrivial = w.saw_fire && (w.saw_early || w.saw_far) && w.saw_seq;
     w.sig.add(w.script);
     vh::note_case(w.sig.h, nontrivial);
-    if (nontrivial && vh::want_sample() && w.script.size() < 1500)
-        vh::sample("{\"mode\":\"history\",\"script\":" + vh::jstr(w.script) + "}");
+    if (nontrivial && vh::st().args.first == 0 && vh::want_sample(3) && w.script.size() < 1500)
+        vh::sample("{\"mode\":\"history\",\"script\":" + vh::jstr(w.script) + "}", 3);
     // alarms first, then the calendar, then the loop
     for (auto &a : w.al) a.unit.destroy();
     w.rcal.reset();
